@@ -435,20 +435,50 @@ def rule_grid_dimensions(chk, tree):
     M.set_parents(fn)
     defs = local_defs(fn.body)
     found = []
-    for a in ast.walk(fn):
-        if not (isinstance(a, ast.Assign) and isinstance(a.targets[0], ast.Subscript) and compact(a.targets[0].value) == 'dimensions'):
+    from verif_static import paths as PT
+    # per path that reaches a store into the grid sizes: the weakest lower bound on a relative extent that the path has established (an `if rel > c:` around the store,
+    # `if not rel > c: continue` before it, `if rel <= c: continue`, a boolean mask `rel > c` used as the index) - whatever the spelling
+    for p_ in PT.enumerate_paths(M.docstring_stripped(fn.body)):
+        for k_, e in enumerate(p_):
+            if not (e.kind == 'stmt' and isinstance(e.node, ast.Assign) and isinstance(e.node.targets[0], ast.Subscript) and compact(e.node.targets[0].value) == 'dimensions'):
+                continue
+            bounds_ = []
+            for t_, tr_ in PT.path_facts(p_[:k_]):
+                if isinstance(t_, ast.Compare) and len(t_.ops) == 1:
+                    op, l_, r_ = t_.ops[0], t_.left, t_.comparators[0]
+                    if isinstance(r_, ast.Constant) and isinstance(r_.value, (int, float)) and not isinstance(l_, ast.Constant):
+                        if (isinstance(op, (ast.Gt, ast.GtE)) and tr_) or (isinstance(op, (ast.Lt, ast.LtE)) and not tr_):
+                            bounds_.append(float(r_.value))
+                    elif isinstance(l_, ast.Constant) and isinstance(l_.value, (int, float)):
+                        if (isinstance(op, (ast.Lt, ast.LtE)) and tr_) or (isinstance(op, (ast.Gt, ast.GtE)) and not tr_):
+                            bounds_.append(float(l_.value))
+            idx = e.node.targets[0].slice
+            if isinstance(idx, ast.Name):
+                m_ = inline(idx, defs)
+                if isinstance(m_, ast.Compare) and len(m_.ops) == 1 and isinstance(m_.ops[0], (ast.Gt, ast.GtE)) and isinstance(m_.comparators[0], ast.Constant):
+                    bounds_.append(float(m_.comparators[0].value))
+            found.append(max(bounds_) if bounds_ else None)
+    # ... and it is read off the particles on every path through the constructor, also when the target points are given explicitly (a slice of 3D data given as x, y only
+    # is still a 3D interpolation)
+    icls_ = interp_class(tree)
+    ini = M.find_func(icls_, '__init__')
+    bad_d, nd = None, 0
+    for p_ in PT.enumerate_paths(M.docstring_stripped(ini.body)):
+        if p_[-1].kind == 'raise':
             continue
-        idx = a.targets[0].slice
-        test = None
-        gi = M.enclosing(a, (ast.If,))
-        if gi is not None and any(gi is x for x in ast.walk(fn)):
-            test = inline(gi.test, defs)
-        elif isinstance(idx, ast.Name) and idx.id in defs:
-            test = inline(idx, defs)
-        if isinstance(test, ast.Compare) and len(test.ops) == 1 and isinstance(test.ops[0], (ast.Gt, ast.GtE)) and isinstance(test.comparators[0], ast.Constant):
-            found.append(float(test.comparators[0].value))
-        else:
-            found.append(None)
+        st = [e for e in p_ if e.kind == 'stmt' and isinstance(e.node, ast.Assign) and compact(e.node.targets[0]) == 'self.dim']
+        if not st:
+            bad_d = bad_d or 'a path through the constructor leaves self.dim unset'
+            continue
+        nd += 1
+        v = PT.resolve(st[-1].node.value, st[-1].env)
+        calls_ = [M.call_name(c_) for c_ in ast.walk(v) if isinstance(c_, ast.Call)]
+        if not ('get_nx_ny_nz' in calls_ and 'get_bounding_box' in calls_ and 'self.particle_arrays' in compact(v)):
+            bad_d = bad_d or 'on a path (%s) self.dim = %s' % ([compact(x) + ' is %s' % t_ for x, t_ in PT.path_facts(p_)][:2], U(v)[:80])
+    chk.decide(bad_d is None and nd > 0, 'rebinding', 'grid:dimension-read-off-the-particles', node=ini, file=INT, func='Interpolator.__init__',
+               detail_bad='%s: the dimension (kernel normalisation, neighbour search, size of the order1 system) must be the number of directions the particle data extend in - '
+                          'get_nx_ny_nz(.., get_bounding_box(self.particle_arrays)) - whatever target points are given' % bad_d,
+               detail_ok='%d paths: self.dim from the automatic grid over the bounding box of the particle arrays' % nd)
     ok = bool(found) and all(c is not None and c <= 1e-4 for c in found)
     chk.decide(ok, 'rebinding', 'grid:direction-resolved-from-1e-4', node=fn, file=INT, func='get_nx_ny_nz',
                detail_bad='a direction gets more than one grid point only above a relative extent of %s (1e-4 documented): a thin but resolved direction (relative extent between 1e-4 and '
@@ -485,6 +515,25 @@ def rule_rebinding(chk, tree):
     ok = bool(up and pa) and g2.dominates(pa[0], up[0]) and g2.must_pass(pa[0], g2.exit, up)
     chk.decide(ok, 'rebinding', 'set_interpolation_points', node=sip, file=INT, func='set_interpolation_points',
                detail_bad='after new target points are set the neighbour structure / evaluator binding is not refreshed on every path', detail_ok='update_particle_arrays on every path after the target array is rebuilt')
+    # every call that returns has built the target array anew from all three coordinates - a coordinate that is not given is zero, not what the previous points had there
+    from verif_static import paths as PT_
+    bad_sp, nsp = None, 0
+    for p_ in PT_.enumerate_paths(M.docstring_stripped(sip.body)):
+        if p_[-1].kind == 'raise' or (p_[-1].kind == 'stmt' and isinstance(p_[-1].node, ast.Raise)):
+            continue
+        if any(e.kind == 'stmt' and isinstance(e.node, ast.Raise) for e in p_):
+            continue
+        nsp += 1
+        st = [(i, e) for i, e in enumerate(p_) if e.kind == 'stmt' and isinstance(e.node, ast.Assign) and compact(e.node.targets[0]) == 'self.pa']
+        if not st:
+            bad_sp = bad_sp or 'a path returns without building the target array anew (tests: %s)' % [compact(x) + ' is %s' % t_ for x, t_ in PT_.path_facts(p_)][-3:]
+            continue
+        v = st[-1][1].node.value
+        if not (isinstance(v, ast.Call) and M.call_name(v) == 'self._create_particle_array' and len(v.args) == 3):
+            bad_sp = bad_sp or 'the target array is `%s`' % compact(v)[:60]
+    chk.decide(bad_sp is None and nsp > 0, 'rebinding', 'set_interpolation_points:target-array-rebuilt-from-all-coordinates', node=sip, file=INT, func='set_interpolation_points',
+               detail_bad='%s: points moved in place keep the old value of every coordinate that was not passed (documented: zero)' % bad_sp,
+               detail_ok='%d returning paths: self.pa = self._create_particle_array(x, y, z)' % nsp)
     cmp_ = [n.id for n in g2.nodes if n.ast is not None and isinstance(n.ast, ast.Expr) and M.call_name(n.ast.value) == 'self._compile_acceleration_eval']
     if cmp_:
         gi = M.enclosing(g2.nodes[cmp_[0]].ast, (ast.If,))
